@@ -27,7 +27,8 @@ RULE = (
     'every (structure, values, row order) table x every query of the lattice: nodes (5 mass '
     'selectors x 2 metre spellings), interior points (cell / edge, fraction 1/2 and the seed\'s '
     'fixed interior fraction), continuity probes, outside states, each under 3 settings of the '
-    'irrelevant state fields; every single-row malformation; every phase first-use order; every '
+    'irrelevant state fields; every single-row malformation (removed, duplicated over another, moved to a '
+    'foreign flight level or mass; also 2 and 3 rows moved to one new level); every phase first-use order; every '
     'generated PTF file. Non-trivial: the model returned three finite values that were compared '
     'with table nodes, or refused a state/table that the property says must be refused; distinct = '
     'distinct (table, query)'
@@ -138,10 +139,32 @@ def _malformations(struct):
                     out.append(dict(kind='dup+missing', ph=ph, r=r, d=d))
         for r in range(n):
             out.append(dict(kind='dup-only', ph=ph, r=r))
+    # rows moved off their grid position (block row r = 3 * FL index + mass index). The per-mass
+    # level counts, the number of rows and the number of masses stay what they were; only the
+    # distinct-pair grid has holes and stray rows.
+    for ph in ('climb', 'cruise'):
+        nfl = len(st['fls'][ph])
+        n = nfl * 3
+        for r in range(n):  # one row to a level no other row has / its mass to a value no other row has
+            for to in ('between', 'below', 'above'):
+                out.append(dict(kind='move-fl', ph=ph, rows=[r], to=to))
+            for to in ('between', 'above'):
+                out.append(dict(kind='move-mass', ph=ph, rows=[r], to=to))
+        for r1 in range(n):  # two rows of different masses to one common new level (it then exists
+            for r2 in range(r1 + 1, n):  # only for some masses)
+                if r1 % 3 != r2 % 3:
+                    for to in ('between', 'above'):
+                        out.append(dict(kind='move-fl', ph=ph, rows=[r1, r2], to=to))
+        for i0 in range(nfl):  # one row per mass to a common new level; from one and the same level this
+            for i1 in range(nfl):  # merely renames the level (valid table), otherwise it leaves holes
+                for i2 in range(nfl):
+                    out.append(dict(kind='move-fl', ph=ph, rows=[3 * i0, 3 * i1 + 1, 3 * i2 + 2], to='above'))
     nd = len(st['fls']['descent'])
     for r in range(nd):
         out.append(dict(kind='remove', ph='descent', r=r))
         out.append(dict(kind='dup-only', ph='descent', r=r))
+        for to in ('between', 'below', 'above'):  # descent has its own level set: still a valid table
+            out.append(dict(kind='move-fl', ph='descent', rows=[r], to=to))
     for j in range(3):
         out.append(dict(kind='drop-mass', j=j))
     out.append(dict(kind='add-mass', where='above'))
@@ -193,7 +216,8 @@ def sublattices(tier, seed):
     for s in mstructs:
         for o in ('gen', 'rev') + (('stride',) if tier == 'thorough' else ()):
             cases += [dict(t=[s, 'lin', o, 'std'], q=dict(k='malformed', mal=m)) for m in _malformations(s)]
-    subs.append(dict(name='malformed tables (load)', axes=dict(structure=mstructs, malformation=['remove', 'dup+missing', 'dup-only', 'drop-mass', 'add-mass']),
+    subs.append(dict(name='malformed tables (load)', axes=dict(structure=mstructs, malformation=['remove', 'dup+missing', 'dup-only', 'drop-mass', 'add-mass',
+                                                                                              'move-fl (1, 2 or 3 rows)', 'move-mass']),
                      cases=cases))  # fmt: skip
     # PTF files
     cases = []
@@ -287,6 +311,9 @@ def _model(t, fresh=False):
 
 def _call(pm, ph, alt, mass, fields=(None, None)):
     """One real evaluate call -> ('ok', (tas, rocd, ff)) | ('raise', exc)."""
+    cur = _S.get('cur')
+    if cur is not None:  # which case made this process's first evaluation in each phase
+        _S.setdefault('hist', {'first': None, 'prev': None, 'phase': {}})['phase'].setdefault(ph, cur)
     try:
         p = pm.evaluate(_S['State'](alt, mass, fields[0], fields[1]), _S['rules'][ph])
         return 'ok', (float(p.true_airspeed), float(p.rate_of_climb), float(p.fuel_flow))
@@ -576,6 +603,7 @@ def _malformed(t, q):
     st = rb.STRUCTS[t[0]]
     missing = None
     must_refuse = False
+    must_accept = False
     if m['kind'] == 'remove':
         missing = blk[m['ph']].pop(m['r'])
         must_refuse = m['ph'] != 'descent'  # a removed descent row leaves a complete smaller grid
@@ -609,22 +637,50 @@ def _malformed(t, q):
                         e['fuel_flow'] = r['fuel_flow'] + 0.0123
                     extra.append(e)
             blk[ph] += extra
+    elif m['kind'] in ('move-fl', 'move-mass'):
+        rows = blk[m['ph']]
+        per = 3 if m['ph'] != 'descent' else 1
+        first = rows[m['rows'][0]]
+        if m['kind'] == 'move-fl':
+            fls = st['fls'][m['ph']]
+            i = m['rows'][0] // per
+            nb = fls[i + 1] if i + 1 < len(fls) else fls[i - 1]
+            new = {'between': fls[i] + 0.37 * (nb - fls[i]), 'below': fls[0] - 7.0, 'above': fls[-1] + 13.0}[m['to']]
+            key = 'fl'
+        else:
+            ms = st['masses']
+            j = m['rows'][0] % per
+            nb = ms[j + 1] if j + 1 < len(ms) else ms[j - 1]
+            new = {'between': 0.5 * (ms[j] + nb), 'above': ms[-1] + 5000.0}[m['to']]
+            key = 'mass'
+        missing = dict(first)
+        for r in m['rows']:
+            rows[r][key] = float(new)
+        # decided from the rows themselves: refusal is required exactly when some phase is no grid
+        must_refuse = bool(rb.incomplete_phases([r for b in blk.values() for r in b]))
+        must_accept = not must_refuse
     rows = rb.order_rows(blk, t[2])
     vio = []
+    label = m['kind'] + (f':{len(m["rows"])}' if 'rows' in m else '')
     try:
         pm = _build(rows, t[3])
     except Exception as e:  # noqa: BLE001
-        return f'load-refused:{m["kind"]}:{type(e).__name__}', vio
+        if must_accept:
+            vio.append(V('valid-table-refused', f'{m} in table {t}: every phase is a complete FL x mass grid with three '
+                                                f'masses, but load raised {type(e).__name__}: {str(e)[:300]}'))  # fmt: skip
+            return f'load-refused-valid:{label}', vio
+        return f'load-refused:{label}:{type(e).__name__}', vio
     if must_refuse:
         fid = None
         detail = f'{m} in table {t}: accepted at load although ({missing["fl"]}, {missing["mass"]}) is missing from the {m["ph"]} grid'
-        if m['kind'] == 'dup+missing':
+        if m['kind'] in ('dup+missing', 'move-fl', 'move-mass'):
             kind, res = _call(pm, m['ph'], missing['fl'] / _S['U'].METERS_TO_FL, missing['mass'])
-            detail += f'; evaluating the missing node gives {res!r}'
+            detail += f'; evaluating the missing node gives {res!r}, the well-formed table has {(missing["tas"], missing["rocd"], missing["fuel_flow"])}'
+        if m['kind'] == 'dup+missing':
             if kind == 'ok' and res == (0.0, 0.0, 0.0):
                 fid = F_DUP
         vio.append(V('incomplete-grid-accepted', detail, finding=fid))
-        return f'load-accepted:{m["kind"]}', vio
+        return f'load-accepted:{label}', vio
     # accepted and allowed to be: the model must reproduce the rows it was given
     ref = rb.RefTable(rows)
     for ph in rb.PHASES:
@@ -633,7 +689,7 @@ def _malformed(t, q):
         for (fl, mass) in sorted(ref.nodes[ph]):
             _check_point(pm, ref, ph, fl, [sorted({k[1] for p in rb.PHASES for k in ref.nodes[p]}).index(mass), 0.0],
                          _alt(fl, 'a'), vio, f'after {m["kind"]}', 'node')  # fmt: skip
-    return f'load-accepted:{m["kind"]}', _dedupe(vio)
+    return f'load-accepted:{label}', _dedupe(vio)
 
 
 def _ptf(q):
@@ -738,10 +794,58 @@ def _dispatch(case):
     return _run_query(case['t'], q)
 
 
+def _plain(case):
+    return {k: v for k, v in case.items() if k != 'warm'}
+
+
+def _history(case):
+    """Earlier cases of this worker that can have left state behind which this case then sees
+    (models are built and lazily completed on first use, so first uses matter): the worker's first
+    case, the first case that touched this case's phase, and the case just before."""
+    h = _S.setdefault('hist', {'first': None, 'prev': None, 'phase': {}})
+    ph = case['q'].get('ph')
+    # chronological: the first case, the phase first-uses (dict order = time order), the previous case
+    want = [h['first']] + ([h['phase'].get(ph)] if ph else list(h['phase'].values())) + [h['prev']]
+    warm = []
+    me = _plain(case)
+    for c in want:
+        if c is not None and c != me and c not in warm:
+            warm.append(c)
+    return warm
+
+
+def _remember(case):
+    h = _S.setdefault('hist', {'first': None, 'prev': None, 'phase': {}})
+    me = _plain(case)
+    if h['first'] is None:
+        h['first'] = me
+    h['prev'] = me
+
+
 def run_case(case):
-    oc, vio = _dispatch(case)
+    _S['cur'] = _plain(case)
+    oc, vio = _dispatch(_plain(case))
     trivial = oc in ('continuity:edge-skipped',)
-    return {'outcome': oc, 'nontrivial': not trivial, 'violations': vio}
+    r = {'outcome': oc, 'nontrivial': not trivial, 'violations': vio}
+    if vio:
+        warm = _history(case)
+        if warm:
+            r['replay_case'] = dict(_plain(case), warm=warm)
+    _remember(case)
+    return r
+
+
+def replay(case):
+    """Fresh process: re-create the recorded history (never a cold evaluation first - that would
+    itself fill whatever is lazily built and could mask a dependence on the earlier cases), then the
+    case. A violation that does not depend on history reproduces regardless."""
+    for c in case.get('warm') or []:
+        _dispatch(c)
+    oc, vio = _dispatch(_plain(case))
+    if case.get('warm'):
+        for v in vio:
+            v['detail'] = f'[replayed after {len(case["warm"])} earlier case(s) of the same worker] ' + v['detail']
+    return vio
 
 
 def observe(case):
@@ -749,6 +853,7 @@ def observe(case):
     q = case['q']
     if q['k'] not in ('node', 'int', 'out'):
         return None
+    case = _plain(case)
     oc, vio = _dispatch(case)
     pm, ref = _model(case['t'])
     ph = q['ph']
